@@ -748,7 +748,7 @@ def _derived_functional(cfg, rng, f):
         return F.FunctionalQuotient(f, F.L2NormSquared(S) + 1.0)
     if w == 'bregman':
         pt = SP.rand_elem(S, g, positive=cfg.get('positive', False))
-        return F.BregmanDistance(f, pt)
+        return F.BregmanDistance(f, pt, f.gradient(pt))
     if w == 'infconv':
         return F.InfimalConvolution(f, F.L2NormSquared(S))
     if w == 'default_cc':
